@@ -1983,4 +1983,83 @@ class C17(Oracle):
         return out
 
 
-ORACLES = {'C18': C18, 'C08': C08, 'C09': C09, 'C10': C10, 'C11': C11, 'C12': C12, 'C05': C05, 'C06': C06, 'C07': C07, 'C04': C04, 'C20': C20, 'C15': C15, 'C16': C16, 'C13': C13, 'C01': C01, 'C19': C19, 'C17': C17}
+
+class C02(Oracle):
+    prop = 'C02'
+
+    def gen(self, rng):
+        g = gen_env_cases(rng, p_random=0.35)
+        while True:
+            c = next(g)
+            c['sched'] = [rng.randrange(4) for _ in range(3 * len(c['actions']))]
+            c['other_seed'] = rng.randrange(2**31)
+            yield c
+
+    def check(self, c):
+        import random as pyrandom
+        import numpy as np
+        import gym_gridverse.rng as rng_mod
+        from gym_gridverse.rng import get_gv_rng
+
+        out = []
+        a_env, b_env, other = env_of_case(c), env_of_case(c), env_of_case(c)
+        # the solo reference trace
+        ref = env_of_case(c)
+        ref.set_seed(c['seed'])
+        ref.reset()
+        nact = len(ref.action_space.actions)
+        solo = []
+        for ai in c['actions']:
+            solo.append((enc_state(ref.state), enc_state(ref.observation)))
+            r, d = ref.step(ref.action_space.actions[ai % nact])
+            solo.append((r, d))
+            if d:
+                ref.reset()
+        # two seeded copies interleaved with a third environment and foreign library draws
+        get_gv_rng()
+        lib0 = rng_mod._gv_rng.bit_generator.state if hasattr(rng_mod._gv_rng, 'bit_generator') else None
+        g0 = (np.random.get_state()[1].tobytes(), pyrandom.getstate())
+        for e in (a_env, b_env):
+            e.set_seed(c['seed'])
+            e.reset()
+        other.set_seed(c['other_seed'])
+        other.reset()
+        lib1 = rng_mod._gv_rng.bit_generator.state if lib0 is not None else None
+        traces = {0: [], 1: []}
+        idx = {0: 0, 1: 0}
+        envs = {0: a_env, 1: b_env}
+        lib_used = False
+        for w in c['sched']:
+            if w in (0, 1):
+                k = idx[w]
+                if k >= len(c['actions']):
+                    continue
+                e = envs[w]
+                traces[w].append((enc_state(e.state), enc_state(e.observation)))
+                r, d = e.step(e.action_space.actions[c['actions'][k] % nact])
+                traces[w].append((r, d))
+                if d:
+                    e.reset()
+                idx[w] += 1
+            elif w == 2:
+                r, d = other.step(other.action_space.actions[0])
+                other.observation
+                if d:
+                    other.reset()
+            else:
+                get_gv_rng().random()
+                lib_used = True
+        for w in (0, 1):
+            if traces[w] != solo[: len(traces[w])]:
+                out.append(V('rng/interleaving-changes-trajectory', f'{c.get("file", "random composition")} seed={c["seed"]} env{w}'))
+        if not lib_used and lib0 is not None and rng_mod._gv_rng.bit_generator.state != lib1:
+            out.append(V('rng/seeded-env-advances-library-generator', f'{c.get("file", "random composition")}'))
+        if lib0 is not None and lib1 != lib0:
+            out.append(V('rng/seeded-env-advances-library-generator', f'{c.get("file", "random composition")} (during reset)'))
+        g1 = (np.random.get_state()[1].tobytes(), pyrandom.getstate())
+        if g0 != g1:
+            out.append(V('rng/global-generator-perturbed', f'{c.get("file", "random composition")}'))
+        return out
+
+
+ORACLES = {'C18': C18, 'C08': C08, 'C09': C09, 'C10': C10, 'C11': C11, 'C12': C12, 'C05': C05, 'C06': C06, 'C07': C07, 'C04': C04, 'C20': C20, 'C15': C15, 'C16': C16, 'C13': C13, 'C01': C01, 'C19': C19, 'C17': C17, 'C02': C02}
